@@ -112,24 +112,73 @@ def classify_site(call: ast.Call, fn: ast.FunctionDef) -> tuple[bool, str]:
     # P7: a fixed delimiter emitted at the current position, which the code before has moved to end - len(delimiter)
     if s in ("endprog.quote",) or (isinstance(s_expr, ast.Constant) and isinstance(s_expr.value, str) and len(s_expr.value) == 1):
         width = "len(endprog.quote)" if s == "endprog.quote" else "1"
-        me = []
-        for v in defs.get("middle_end", []):
-            me.append(norm_stmt(v))
-            # `end - (A if flag else B)`: the arm that holds on the branch this token is emitted on
-            if isinstance(v, ast.BinOp) and isinstance(v.op, ast.Sub) and isinstance(v.right, ast.IfExp) and isinstance(v.right.test, ast.Name):
-                flag = v.right.test.id
-                fdefs = defs.get(flag, [])
-                for g in ast.walk(fn):
-                    if isinstance(g, ast.If) and isinstance(g.test, (ast.Name, ast.Compare)) and \
-                            (norm_stmt(g.test) == flag or (len(fdefs) == 1 and norm_stmt(g.test) == norm_stmt(fdefs[0]))):
-                        if any(call is x for b in g.body for x in ast.walk(b)):
-                            me.append(f"{norm_stmt(v.left)} - {norm_stmt(v.right.body)}")
-                        elif any(call is x for b in g.orelse for x in ast.walk(b)):
-                            me.append(f"{norm_stmt(v.left)} - {norm_stmt(v.right.orelse)}")
-        if same_line and sc == "state.pos" and ec == "end" and f"end - {width}" in me:
+        if not (same_line and sc == "state.pos" and ec == "end"):
+            return False, f"delimiter of width {width} but the span is {sc}..{ec}"
+        # where did the text before the delimiter end?  On every path that emits this token: the boundary handed to
+        # `state.prog_token(B, ..)` and/or tested as `B > state.pos` (locals resolved along the path) must be end - width
+        from ..fprogs import delimiter_paths
+        from ..pyflow import Index as _Index
+        if fn.name != "handle_fstring_progs":
+            return False, "a fixed delimiter outside handle_fstring_progs"
+        me = _boundaries(fn, norm_stmt(call))
+        if me and all(x == f"end - {width}" for x in me):
             return True, "delimiter at the position the preceding middle token ended"
-        return False, f"delimiter of width {width} but the span is {sc}..{ec} and middle_end is {me}"
+        return False, f"delimiter of width {width} at state.pos..end but the middle part before it ends at {sorted(me)}"
     return False, f"text `{s}` is not visibly the slice {sc}..{ec} of its line"
+
+
+def _boundaries(fn: ast.FunctionDef, call_text: str) -> set[str]:
+    import re as _re2
+    from ..fprogs import _inline_flags
+    from ..pyflow import stmt_paths
+    out: set[str] = set()
+    for p in stmt_paths(_inline_flags(fn), split_bool=True):
+        if not any(x[0] == "do" and call_text in x[1] for x in p):
+            continue
+        env: dict[str, str] = {}
+        found = set()
+        conds = {x[1]: x[2] for x in p if x[0] == "cond"}
+
+        def resolve(t: str) -> str:
+            tree = ast.parse(t, mode="eval").body
+            for _ in range(4):
+                names = {n.id for n in ast.walk(tree) if isinstance(n, ast.Name)} & set(env)
+                if not names:
+                    break
+
+                class R(ast.NodeTransformer):
+                    def visit_Name(self, node):
+                        return ast.parse(env[node.id], mode="eval").body if node.id in env else node
+                tree = R().visit(tree)
+
+            class C(ast.NodeTransformer):  # a conditional expression whose test was decided on this path
+                def visit_IfExp(self, node):
+                    self.generic_visit(node)
+                    v = conds.get(norm_stmt(node.test))
+                    return node if v is None else (node.body if v else node.orelse)
+            tree = C().visit(ast.Expression(body=tree)).body
+            return norm_stmt(tree)
+        for x in p:
+            if x[0] == "do":
+                if call_text in x[1]:
+                    break
+                m = _re2.fullmatch(r"([A-Za-z_]\w*) = (.+)", x[1])
+                if m and "yield" not in m.group(2) and not any(
+                        isinstance(c, ast.Call) and not (isinstance(c.func, ast.Name) and c.func.id == "len") for c in ast.walk(ast.parse(m.group(2)))):
+                    env[m.group(1)] = resolve(m.group(2))
+                for c in ast.walk(ast.parse(x[1])):
+                    if isinstance(c, ast.Call) and norm_stmt(c.func) == "state.prog_token" and c.args:
+                        found.add(resolve(norm_stmt(c.args[0])))
+            elif x[0] == "cond":
+                t = ast.parse(x[1], mode="eval").body
+                if isinstance(t, ast.Compare) and len(t.ops) == 1 and isinstance(t.ops[0], ast.Gt) and norm_stmt(t.comparators[0]) == "state.pos":
+                    found.add(resolve(norm_stmt(t.left)))
+                elif isinstance(t, ast.Compare) and len(t.ops) == 1 and isinstance(t.ops[0], ast.Lt) and norm_stmt(t.left) == "state.pos":
+                    found.add(resolve(norm_stmt(t.comparators[0])))
+        if not found:
+            found.add("<nothing>")
+        out |= found
+    return out
 
 
 def _classify_through_callers(ix: Index, f, call: ast.Call, why0: str) -> tuple[bool, str]:
@@ -285,8 +334,26 @@ def rule_l2(chk: Check, ix: Index):
 
     COVER_TESTS = {"state.lnum > self.upto": True, "self.upto < state.lnum": True, "state.lnum != self.upto": True,
                    "state.lnum <= self.upto": False, "state.lnum == self.upto": False}
-    for q, want_text, what in (("EndProg.join", "self.text += state.line[state.pos:end]", "the unread part of the line up to `end`"),
-                               ("EndProg.join_line", "self.text += state.line[state.pos:]", "the unread rest of the line")):
+    # the accumulating methods: those of EndProg that (helpers inlined) add to `self.text`.  What they append is the slice of
+    # the line from the scan position to their bound parameter, or to the end of the line when they have none (or it is None)
+    accum: dict[str, Optional[str]] = {}
+    for q in sorted(ix.funcs):
+        if not q.startswith("EndProg.") or q.endswith(".__init__"):
+            continue
+        try:
+            _f0, ps0 = paths_of(q)
+        except AnalysisError:
+            continue
+        texts = {e for pth in ps0 for e in [x[1] for x in pth if x[0] == "do"] if e.startswith("self.text +=")}
+        if texts:
+            params = [a.arg for a in ix.get(q).node.args.args if a.arg not in ("self", "state")]
+            accum[q] = params[0] if params else None
+    if not accum:
+        raise AnalysisError("no EndProg method accumulates text")
+    chk.units["accumulating_methods"] = sorted(accum)
+    for q, bound in sorted(accum.items()):
+        want_text = f"self.text += state.line[state.pos:{bound}]" if bound else "self.text += state.line[state.pos:]"
+        what = f"the unread part of the line up to `{bound}`" if bound else "the unread rest of the line"
         f, ps = paths_of(q)
         chk.count("L2-accumulation")
         bad = ""
@@ -315,10 +382,25 @@ def rule_l2(chk: Check, ix: Index):
             continue
         body_stmts = [s for s in ast.walk(f.node) if isinstance(s, ast.stmt)]
         for n in own_nodes(f.node):
-            if isinstance(n, ast.Call) and isinstance(n.func, ast.Attribute) and n.func.attr in ("join", "join_line") \
+            if isinstance(n, ast.Call) and isinstance(n.func, ast.Attribute) and f"EndProg.{n.func.attr}" in accum \
                     and norm_stmt(n.func.value) in ("endprog", "state.end_progs[-1]", "self.end_progs[-1]"):
                 chk.count("L2-accumulation")
-                want = "self.pos = end" if n.func.attr == "join" else "state.pos = state.max"
+                # the bound actually passed at this site (a missing / None bound means: to the end of the line)
+                bound = accum[f"EndProg.{n.func.attr}"]
+                passed = None
+                if bound:
+                    callee = ix.get(f"EndProg.{n.func.attr}").node
+                    pnames = [a.arg for a in callee.args.args if a.arg != "self"]
+                    bind = dict(zip(pnames, n.args))
+                    bind.update({k.arg: k.value for k in n.keywords if k.arg})
+                    v = bind.get(bound)
+                    if v is None:
+                        dflt = dict(zip(pnames[len(pnames) - len(callee.args.defaults):], callee.args.defaults)).get(bound)
+                        v = dflt
+                    if v is not None and not (isinstance(v, ast.Constant) and v.value is None):
+                        passed = norm_stmt(v)
+                st_name = norm_stmt(n.args[0]) if n.args else "state"
+                want = f"{st_name}.pos = {passed}" if passed else "state.pos = state.max"
                 # the statement right after the call in the same block
                 follows = False
                 for blk in [x for x in ast.walk(f.node) if hasattr(x, "body") and isinstance(getattr(x, "body"), list)]:
@@ -375,7 +457,8 @@ def rule_l2(chk: Check, ix: Index):
     from ..pyflow import CFG
     cfg = CFG(he.node)
     starts = [c.id for c in cfg.nodes if c.stmt is not None and c.kind == "stmt" and "handle_fstring_progs(" in norm_stmt(c.stmt)]
-    joins = [c.id for c in cfg.nodes if c.stmt is not None and c.kind == "stmt" and ".join_line(" in norm_stmt(c.stmt)]
+    acc_calls = tuple(f".{q.split('.')[1]}(" for q in accum)
+    joins = [c.id for c in cfg.nodes if c.stmt is not None and c.kind == "stmt" and any(a in norm_stmt(c.stmt) for a in acc_calls)]
     guards = [c.id for c in cfg.nodes if c.kind == "test" and "state.in_braces()" in c.label]
     chk.count("L2-accumulation")
     ok = bool(starts) and bool(joins)
@@ -390,8 +473,23 @@ def rule_l2(chk: Check, ix: Index):
     # a one-quote string that does not end on its line and is not continued must be refused, not left open: otherwise its text is
     # scanned again as ordinary tokens and the next line is glued onto the opening quote
     chk.count("L2-accumulation")
-    join_ifs = [n for n in own_nodes(he.node) if isinstance(n, ast.If) and any(".join_line(" in norm_stmt(s2) for s2 in n.body)]
-    ok = len(join_ifs) == 1 and any(isinstance(x, ast.Raise) for s2 in join_ifs[0].orelse for x in ast.walk(s2))
+    from ..pyflow import stmt_paths as _sp3
+    ok = False
+    try:
+        hp = _sp3(he.node.body, split_bool=True)
+        stuck = []
+        for pth in hp:
+            c = {x[1]: x[2] for x in pth if x[0] == "cond"}
+            if c.get("state.pos == 0") is False and c.get("state.in_multi_line_string()") is False and c.get("state.in_continued_string()") is False \
+                    and c.get("state.in_fstring()") is not True and c.get("state.in_colon()") is not True:
+                stuck.append(pth)
+        # of those, the ones for a plain string (no mode object) must raise
+        plain = [p for p in stuck if any(x[0] == "cond" and x[1].endswith(".mode is None") and x[2] for x in p)]
+        ok = bool(plain) and all(p[-1][1] == "raise" for p in plain) and \
+            all(any(x[0] == "cond" and x[1].endswith(".mode is None") for x in p) for p in stuck if p[-1][1] != "raise"
+                and not any(x[0] == "cond" and x[1] in ("state.in_fstring()", "state.in_colon()") and x[2] for x in p))
+    except AnalysisError:
+        ok = False
     chk.require(ok, "L2-accumulation", "handle_end_progs:unterminated-string", he.where,
                 "when an open string neither ends on the current line nor continues (triple quote / backslash), the tokenizer must raise; "
                 "falling through re-scans the string's text as code and lets the next line close it")
@@ -515,20 +613,43 @@ def rule_l4(chk: Check, ix: Index):
     chk.count("L4-block-structure")
     conds = [n for n in ne.node.body if isinstance(n, ast.If) and any(isinstance(x, ast.Yield) and "Token.NEWLINE" in norm_stmt(x) for x in ast.walk(n))]
     bad = []
+    guard_fields: set[str] = set()
     if len(conds) != 1:
-        bad.append("no single condition guards the implicit NEWLINE")
+        bad.append("no single statement guards the implicit NEWLINE")
     else:
+        # the guard may be one test or nested ones: the paths through the statement, each with the tests it passed
+        gpaths = stmt_paths([conds[0]], opaque_loops=True, split_bool=True)
+        for pth in gpaths:
+            for x in pth:
+                if x[0] == "cond":
+                    guard_fields |= {n.attr for n in ast.walk(ast.parse(x[1])) if isinstance(n, ast.Attribute) and norm_stmt(n.value) == "state"}
         # (text of the last line, was it a blank/comment-only line for which NL was emitted?)
         for (last_line, was_blank), want in ((("x = 1", False), True), (("x = 1\n", False), False), (("x = 1\r\n", False), False),
                                              (("# c", True), False), (("   # c", True), False), (("\t# c", True), False),
                                              (("x = 1  # c", False), True), (("", False), False), (("    y", False), True),
                                              (("# b\'\'\'", False), True)):   # a '#' line that lies inside a string is not a comment
             st = _types.SimpleNamespace(last_line=last_line, lnum=6, blank_lnum=5 if was_blank else 2)
+            taken = []
             try:
-                got = bool(constfold.eval_local_value(ne.node, conds[0].test, {"state": st}, data_attrs=("last_line", "lnum", "blank_lnum")))
+                for pth in gpaths:
+                    okp = True
+                    for x in pth:
+                        if x[0] != "cond":
+                            continue
+                        v = bool(constfold.eval_local_value(ne.node, ast.parse(x[1], mode="eval").body, {"state": st},
+                                                            data_attrs=("last_line", "lnum", "blank_lnum")))
+                        if v != x[2]:
+                            okp = False
+                            break
+                    if okp:
+                        taken.append(pth)
             except constfold.PureEvalError as e:
                 bad.append(f"not evaluable: {e}")
                 break
+            if len(taken) != 1:
+                bad.append((last_line, f"{len(taken)} paths through the guard"))
+                continue
+            got = any(x[0] == "do" and "yield" in x[1] and "Token.NEWLINE" in x[1] for x in taken[0])
             if got != want:
                 bad.append((last_line, "blank/comment line" if was_blank else "code or string text", got))
     chk.require(not bad, "L4-block-structure", "next_end_tokens:implicit-newline", ne.where,
@@ -537,8 +658,7 @@ def rule_l4(chk: Check, ix: Index):
     # the record the condition consults is kept by the scanner: set to the line number exactly where a blank/comment-only
     # line is answered with NL, and nowhere else
     if len(conds) == 1:
-        fields = sorted({x.attr for x in ast.walk(conds[0].test) if isinstance(x, ast.Attribute) and norm_stmt(x.value) == "state"}
-                        - {"last_line", "lnum"})
+        fields = sorted(guard_fields - {"last_line", "lnum"})
         for fld in fields:
             chk.count("L4-block-structure")
             why = ""
@@ -603,6 +723,6 @@ def run(chk: Check):
     from .c07 import rule_m1
     rule_k1(chk, constfold.fold_tokenize(), chk.tier == "thorough")
     rule_m1(chk, ix)
-    chk.floor("L2-accumulation", 11)
+    chk.floor("L2-accumulation", 10)
     chk.floor("L3-coverage", 15)
     chk.floor("L4-block-structure", 4)
